@@ -5,6 +5,7 @@ cd /repo || exit 2
 if ! git apply --check "$patch" 2>/dev/null; then
   if ! git apply --3way --check "$patch" 2>/dev/null; then echo "PATCH DOES NOT APPLY: $patch"; exit 3; fi
   git apply --3way "$patch" >/dev/null 2>&1; git reset -q
+  if grep -rlq '^<<<<<<< ' --include=*.py coba; then echo "PATCH CONFLICTS WITH CURRENT TREE: $patch"; git checkout -- .; exit 3; fi
 else git apply "$patch"; fi
 cd /verif && ./check $pid --tier $tier | grep -v KNOWN-FINDING | cut -c1-200; rc=${PIPESTATUS[0]}
 git -C /repo checkout -- . ; git -C /repo status --short | head -3
